@@ -86,7 +86,9 @@ package dnsserver
 
 //@ extern github.com/miekg/dns PackDomainName
 //@ modifies msg[0:len(msg)]
-//@ ensures err == nil ==> off1 >= 1 && off1 <= len(msg) && msg[0] <= 63 && (msg[0] == 0 ==> off1 == 1) && (msg[0] != 0 ==> msg[0] + 2 <= off1)
+// (miekg/dns v1.1.50: when the labels exactly fill the buffer the final root byte is NOT written and no ErrBuf is
+// returned, so the returned offset can be len(msg)+1; a name taken from an unpacked message is at most 255 octets)
+//@ ensures err == nil ==> off1 >= 1 && off1 <= len(msg) + 1 && off1 <= 255 && (off1 <= len(msg) ==> msg[0] <= 63 && (msg[0] == 0 ==> off1 == 1) && (msg[0] != 0 ==> msg[0] + 2 <= off1))
 
 //@ extern github.com/miekg/dns UnpackDomainName
 //@ pure
